@@ -104,6 +104,9 @@ class Region:
                 heads.sort(key=lambda h: len(body.loops[h]))
                 for h in heads:
                     out.append((cur_fid, h))
+            if (cur_fid, 0) in getattr(self.eng, "iter_loops", {}):
+                # the frame is the callable of a closure-taking iterator adapter: one call per element
+                out.append((cur_fid, 0))
             # go to the caller: the call site of this frame
             if len(cur_fid) <= 1:
                 break
@@ -116,6 +119,8 @@ class Region:
 
     def loop_nodes(self, fid, h):
         """all supergraph nodes belonging to loop (fid,h): its blocks plus every frame called from them"""
+        if (fid, h) in getattr(self.eng, "iter_loops", {}):
+            return set(n for n in self.g.succ if n[0][:len(fid)] == fid)
         body = self.frame_body(fid)
         L = body.loops[h]
         out = set()
@@ -145,6 +150,14 @@ class Region:
             return None
         # the frame of the outermost loop containing the receive
         return lps[-1][0]
+
+    def transfer_obligations(self):
+        """non-ghost obligations raised in the transfer function or anything inlined into it"""
+        tf = self.transfer_frame()
+        if tf is None:
+            return []
+        return [o for o in self.eng.obligations.values() if o.region == self.name and not o.kind.startswith("ghost")
+                and o.ctx[:len(tf)] == tf]
 
     # ---------------- returns of a frame
     def ret_nodes(self, fid, want):
@@ -363,12 +376,100 @@ def worker_upvar(R):
     return None
 
 
-def env_field(R, sym, field_name):
-    """is integer symbol `sym` the captured Worker's field `field_name`?"""
-    nm = R.eng.sym_names[sym] if sym is not None else None
+# positions of the settings in the public constructor Worker::new(socket, file_path, clean_on_error, blk_size, timeout,
+# windowsize, repeat_amount): the crate's documented API, unlike the private field names
+WORKER_NEW_PARAMS = {"socket": 1, "file_path": 2, "clean_on_error": 3, "blk_size": 4, "timeout": 5, "windowsize": 6, "repeat_amount": 7}
+
+
+def worker_param_paths(world):
+    """{parameter position of Worker::new: path inside the Worker value where the constructor stores it} (by interpretation
+    of the constructor, so private fields may be renamed, reordered or grouped into helper structs)"""
+    cached = getattr(world, "_worker_param_paths", None)
+    if cached is not None:
+        return cached
+    prog = world.lib
+    out = {}
+    name = None
+    for bp in prog.bodies:
+        if bp.startswith(WORKER + "::") and bp.endswith("::new") and prog.bodies[bp].kind != "closure":
+            name = bp
+    if name is not None:
+        e = world.run("fn:" + name)
+        for st in e.finals:
+            ret = st.store.get(("L", e.entry_frame, 0), {})
+            for k, v in ret.items():
+                src = None
+                if v[0] == "i" and len(v[1][1]) == 1 and v[1][0] == 0 and v[1][1][0][1] == 1:
+                    nm = e.sym_names[v[1][1][0][0]]
+                    if isinstance(nm, tuple) and nm[0] == "init" and nm[1][0] == "L" and nm[1][1] == e.entry_frame and tuple(nm[2]) in ((), ("$secs",)):
+                        src = (nm[1][2], tuple(nm[2]))
+                elif v[0] == "t" and isinstance(v[1], tuple) and v[1] and v[1][0] == "init" and v[1][1][0] == "L" and v[1][1][1] == e.entry_frame and tuple(v[1][2]) == ():
+                    src = (v[1][1][2], ())
+                if src is not None and isinstance(src[0], int):
+                    kk = tuple(k)
+                    if src[1] and kk[-len(src[1]):] == src[1]:
+                        kk = kk[:-len(src[1])]
+                    out.setdefault(src[0], kk)
+    world._worker_param_paths = out
+    return out
+
+
+def env_param_path(R, param_name):
+    """path (inside the closure environment) of the captured Worker's copy of constructor parameter `param_name`"""
     u = worker_upvar(R)
-    fi = R.prog.field_index(WORKER, field_name)
-    return isinstance(nm, tuple) and nm and nm[0] == "env" and u is not None and fi is not None and tuple(nm[2]) == (u, fi)
+    pp = worker_param_paths(R.world).get(WORKER_NEW_PARAMS[param_name])
+    if u is None or pp is None:
+        return None
+    return (u,) + tuple(pp)
+
+
+def env_field(R, sym, param_name):
+    """is integer symbol `sym` the captured Worker's copy of the constructor parameter `param_name`?"""
+    nm = R.eng.sym_names[sym] if sym is not None else None
+    path = env_param_path(R, param_name)
+    return isinstance(nm, tuple) and nm and nm[0] == "env" and path is not None and tuple(nm[2]) == path
+
+
+def env_key(R, ev, i):
+    """key (path in the closure environment) of the captured value that argument i of event ev refers to, or None"""
+    v = ev.args[i] if len(ev.args) > i else None
+    snap = ev.argsnap[i] if len(ev.argsnap) > i else None
+    clos = R.name[len("thread:"):]
+    if isinstance(snap, dict):
+        pv = snap.get(())
+        if isinstance(pv, tuple) and pv and pv[0] == "t" and isinstance(pv[1], tuple) and pv[1] and pv[1][0] == "env" and pv[1][1] == clos:
+            return tuple(pv[1][2])
+    if isinstance(v, tuple) and v and v[0] == "t" and isinstance(v[1], tuple) and v[1] and v[1][0] == "env" and v[1][1] == clos:
+        return tuple(v[1][2])
+    if isinstance(v, tuple) and v and v[0] == "r" and v[1][0] == "L" and v[1][1] == R.root_fid and v[1][2] == 1:
+        return tuple(v[2])
+    return None
+
+
+def spawn_env_values(R, key):
+    """listener-side values of environment leaf `key`, one per spawn event of this region's closure"""
+    clos = R.name[len("thread:"):]
+    out = []
+    for e in R.eng.events:
+        if strip_generics(e.callee) != "std::thread::spawn" or not e.args:
+            continue
+        a = e.args[0]
+        if not (isinstance(a, tuple) and a[0] == "agg"):
+            continue
+        cd = a[1].get(("$closure",))
+        if cd is None or cd[1][1] != clos:
+            continue
+        out.append(a[1].get(tuple(key)))
+    return out
+
+
+def same_captured_value(R, k1, k2):
+    if k1 is None or k2 is None:
+        return False
+    if k1 == k2:
+        return True
+    a, b = spawn_env_values(R, k1), spawn_env_values(R, k2)
+    return bool(a) and len(a) == len(b) and all(x is not None and x == y for x, y in zip(a, b))
 
 
 def truncating_open(R, e):
